@@ -28,6 +28,8 @@ class Explorer:
         self.queries = 0
         self.solver_s = 0.0
         self.paths = 0
+        self.subpaths = 0
+        self.lits = []
 
     def check(self, *extra):
         t0 = time.time()
@@ -58,8 +60,30 @@ class Explorer:
             else:
                 raise Infeasible()
         self.trace.append(choice)
-        self.solver.add(cond if choice else z3.Not(cond))
+        lit = cond if choice else z3.Not(cond)
+        self.lits.append(lit)
+        self.solver.add(lit)
         return choice
+
+    def summarize(self, thunk):
+        """explore all paths of a side-effect-free call under the current path condition and merge the results"""
+        saved = (self.plan, self.trace, self.work, self.lits)
+        self.work = [[]]
+        results = []
+        while self.work:
+            self.plan = self.work.pop()
+            self.trace = []
+            self.lits = []
+            self.solver.push()
+            try:
+                r = thunk()
+                results.append((z3.And(self.lits) if self.lits else z3.BoolVal(True), r))
+            except Infeasible:
+                pass
+            self.solver.pop()
+        self.plan, self.trace, self.work, self.lits = saved
+        self.subpaths += len(results)
+        return merge_strs(results)
 
     def explore(self, body, base_constraints=()):
         """body() runs the code under analysis and returns a z3 Bool 'violation' (or None)."""
@@ -68,6 +92,7 @@ class Explorer:
         while self.work:
             self.plan = self.work.pop()
             self.trace = []
+            self.lits = []
             self.solver.push()
             for c in base_constraints:
                 self.solver.add(c)
@@ -475,3 +500,65 @@ def instrument(fn, namespace_overrides):
     ns["__symx_len"] = sym_len
     exec(compile(tree, inspect.getsourcefile(fn), "exec"), ns)
     return ns[fn.__name__]
+
+
+# ---------------------------------------------------------------- join / str shims (added for the uniqueness probe)
+def sym_join(sep, items):
+    items = list(items)
+    if isinstance(sep, str) and all(isinstance(x, str) for x in items):
+        return sep.join(items)
+    out = None
+    for x in items:
+        if out is None:
+            out = SymStr.lift(x)
+        else:
+            out = out + sep + x
+    return out if out is not None else ""
+
+
+class _Rewrite2(_Rewrite):
+    def visit_Call(self, node):
+        node = super().visit_Call(node)
+        if isinstance(node.func, ast.Attribute) and node.func.attr == "join" and len(node.args) == 1:
+            return ast.Call(ast.Name("__symx_join", ast.Load()), [node.func.value, node.args[0]], [])
+        return node
+
+
+def instrument2(fn, namespace_overrides):
+    src = textwrap.dedent(inspect.getsource(fn))
+    tree = _Rewrite2().visit(ast.parse(src))
+    ast.fix_missing_locations(tree)
+    ns = dict(fn.__globals__)
+    ns.update(namespace_overrides)
+    ns["__symx_len"] = sym_len
+    ns["__symx_join"] = sym_join
+    exec(compile(tree, inspect.getsourcefile(fn), "exec"), ns)
+    return ns[fn.__name__]
+
+
+def merge_strs(results):
+    rs = [(g, SymStr.lift(r)) for g, r in results]
+    m = max(r.m for _g, r in rs)
+    g0, r0 = rs[-1]
+    chars = [(r0.c[i] if i < r0.m else z3.BitVecVal(0, BW)) for i in range(m)]
+    n = r0.n
+    for g, r in reversed(rs[:-1]):
+        chars = [z3.If(g, (r.c[i] if i < r.m else z3.BitVecVal(0, BW)), chars[i]) for i in range(m)]
+        n = z3.If(g, r.n, n)
+    return SymStr(chars, n)
+
+
+_SUMMARY_CACHE = {}
+
+
+def summarized(fn):
+    def wrapper(*a, **k):
+        key = (fn, tuple(id(x) if isinstance(x, SymStr) else x for x in a[1:]))
+        if key not in _SUMMARY_CACHE:
+            # computed without the caller's path condition: valid on every path (keeps the args alive too)
+            EX.solver.push()
+            saved = EX.solver.assertions()
+            EX.solver.pop()
+            _SUMMARY_CACHE[key] = (EX.summarize(lambda: fn(*a, **k)), a)
+        return _SUMMARY_CACHE[key][0]
+    return wrapper
